@@ -33,10 +33,33 @@ def plan(tier, seed, kf_ids):
     let y = I9F23::from_bits(kani::any());
     let z = tf::pow::<I9F23, I9F23>(I9F23::from_bits(0), y);
     assert!(z == Ok(I9F23::from_bits(0)), "0^y = 0");'''),
-                       ("c15_powi_sq_i9f23", '''
+                       ("c15_powi_neg_i9f23", '''
     let b: i32 = kani::any();
     let n: i32 = kani::any();
+    kani::assume(n >= 1 && n <= 3);
+    let x = I9F23::from_bits(b);
+    hooks::reset(u64::MAX);
+    let rn = tf::powi::<I9F23, I9F23>(x, -n);
+    let rp = tf::powi::<I9F23, I9F23>(x, n);
+    kani::cover!(rn.is_ok() && b < 0 && n == 3, "W:negative base, odd negative exponent");
+    // x^-n is the truncated reciprocal of x^n: |q| |p| <= 2^46 < (|q|+1) |p| with the sign of p (multiply-back, one division)
+    match (rp, rn) {
+        (Ok(p), Ok(q)) => {
+            let pb = p.to_bits() as i128;
+            let qb = q.to_bits() as i128;
+            let (pa, qa) = (pb.abs(), qb.abs());
+            let one2 = 1i128 << 46;
+            assert!(pa != 0 && qa * pa <= one2 && one2 < (qa + 1) * pa, "powi(x,-n) = trunc(1 / powi(x,n))");
+            assert!(qa == 0 || (qb < 0) == (pb < 0), "powi(x,-n) has the sign of powi(x,n)");
+        }
+        (Err(_), Ok(_)) => assert!(false, "powi(x,-n) is Ok only if powi(x,n) is"),
+        _ => {}
+    }'''),
+                       ("c15_powi_sq_i9f23", '''
+    // n = 2 for every operand; n = 3 on the operand family (the symbolic 96-bit cube does not finish over the full range)
+    let n: i32 = kani::any();
     kani::assume(n == 2 || n == 3);
+    let b: i32 = if n == 2 { kani::any() } else { family_i(32) as i32 };
     let x = I9F23::from_bits(b);
     hooks::reset(u64::MAX);
     let r = tf::powi::<I9F23, I9F23>(x, n);
@@ -63,9 +86,9 @@ def plan(tier, seed, kf_ids):
         "jobs": jobs,
         "functions": ["transcendental.rs: exp, powi, pow (conventions)"],
         "bounds": "I9F23: exp on neighbourhoods of 2^8 operands at the listed and seeded points of [-8, 5.5] (tolerance 2^-20 e^x + 64 ulp); "
-                  "powi: conventions 0^n, x^0, x^1, 0^y for every operand; n in {2,3} for every operand against the exact rational power",
+                  "powi: conventions 0^n, x^0, x^1, 0^y for every operand; n = 2 for every operand and n = 3 on the operand family against the exact rational power; n in {-1,-2,-3}: truncated reciprocal of powi(x,|n|)",
         "outside": ["exp outside the neighbourhoods; pow accuracy for general exponents (two chained 23-step loops: query did not "
-                    "finish)", "powi for |n| > 3 and negative n", "64/128-bit types (memory)"],
+                    "finish)", "powi for |n| > 3", "64/128-bit types (memory)"],
         "assumptions": ["enclosure constants from mpmath.iv at 200 bits, outward rounded"],
         "stubs": [],
     }
